@@ -215,3 +215,15 @@ def opConc (args : List String) : String :=
     (args.filterMap fun t => if t.startsWith "RR" then (t.drop 2).toNat? else none).sum
   s!"m.out=b{gos},r{readys}"
 end Driver
+
+namespace Driver
+open Clemens
+/-- `gotime <side> <plys> <mt> <clock> <tokenhex>…`: the budget computed from the parsed go line -/
+def opGoTime (args : List String) : String :=
+  match args with
+  | side :: plys :: _ :: _ :: toks =>
+    match parseGo atoiFull (toks.map unhexBytes) with
+    | some (sp, _) => s!"m.budget={calculateTime (side.toNat?.getD 0) (parseInt plys) sp}"
+    | none => "m.res=panic"
+  | _ => "bad-op"
+end Driver
